@@ -633,16 +633,38 @@ def simplify_proj(p):
     return p
 
 
+def _drop_turbofish(p):
+    """remove `::<...>` groups (balanced)"""
+    out = []
+    i = 0
+    while i < len(p):
+        if p.startswith("::<", i):
+            j = i + 3
+            d = 1
+            while j < len(p) and d:
+                if p[j] == "<":
+                    d += 1
+                elif p[j] == ">" and p[j - 1] != "-":
+                    d -= 1
+                j += 1
+            i = j
+            continue
+        out.append(p[i])
+        i += 1
+    return "".join(out)
+
+
 def short_path(p):
-    """drop module qualifiers: keep last two path components outside generics"""
-    m = re.match(r"^[a-z_]+(?:::[a-z_]+)*::<impl ([^>]+)>::(\w+)$", p)
+    """drop module qualifiers: keep the last two path components, generics removed;
+    `core::str::<impl str>::find` -> `str::find`; `<T as Trait>::m` kept as is."""
+    q = _drop_turbofish(p)
+    m = re.match(r"^[A-Za-z_0-9]+(?:::[A-Za-z_0-9]+)*::<impl ([^>]+)>::(\w+)$", q)
     if m:
         return "%s::%s" % (m.group(1), m.group(2))
-    if p.startswith("<"):
-        return p
-    base = re.sub(r"<.*>", "", p)
-    parts = base.split("::")
-    return "::".join(parts[-2:]) if len(parts) >= 2 else base
+    if q.startswith("<"):
+        return q
+    parts = q.split("::")
+    return "::".join(parts[-2:]) if len(parts) >= 2 else q
 
 
 class Program:
